@@ -205,9 +205,16 @@ def l1(a, b) -> Fraction:
 
 
 def distinct_distances(d: Drawing, label, margin=Fraction(1, 10**6)) -> bool:
-    """no two fragments at (nearly) the same L1 distance from the label: the KD-tree order is then determined"""
+    """The label's resolution is decided WITH A MARGIN, i.e. not by the rounding of the decimal text:
+    no two fragments at (nearly) the same L1 distance from the label (the order of the candidates, and which five are
+    the nearest, is then determined), and no fragment centre at (nearly) the label's height ("above" is then determined:
+    a centre such as (716.28 + 737.88) / 2 equals 727.08 exactly but 727.0799999999999 in binary floating point).
+    Drawings with such ties are degenerate; the property says nothing about them and no expectation is formed."""
     ds = sorted(l1(f["pos"], label["pos"]) for f in d.frags)
-    return all(b - a > margin for a, b in zip(ds, ds[1:]))
+    if not all(b - a > margin for a, b in zip(ds, ds[1:])):
+        return False
+    ly = label["pos"][1]
+    return all(abs(f["pos"][1] - ly) > margin for f in d.frags)
 
 
 # --------------------------------------------------------------------------------------
